@@ -668,6 +668,33 @@ impl<K: PartialEq, V> FxHashMap<K, V> {
     pub fn is_empty(&self) -> bool {
         self.v.is_empty()
     }
+    /// "Clears the map, returning all key-value pairs as an iterator."
+    pub fn drain(&mut self) -> Drained<K, V> {
+        Drained { v: std::mem::take(&mut self.v) }
+    }
+    pub fn iter(&self) -> impl Iterator<Item = (&K, &V)> {
+        self.v.iter().map(|(k, v)| (k, v))
+    }
+    pub fn keys(&self) -> impl Iterator<Item = &K> {
+        self.v.iter().map(|(k, _)| k)
+    }
+    pub fn values(&self) -> impl Iterator<Item = &V> {
+        self.v.iter().map(|(_, v)| v)
+    }
+    pub fn clear(&mut self) {
+        self.v.clear()
+    }
+}
+/// The drained pairs, in some order (`Vec::pop` is length-based, which CBMC's constant propagation follows;
+/// `vec::IntoIter` compares pointers, which it does not: two drained pairs then already exhaust the solver's memory).
+pub struct Drained<K, V> {
+    v: Vec<(K, V)>,
+}
+impl<K, V> Iterator for Drained<K, V> {
+    type Item = (K, V);
+    fn next(&mut self) -> Option<(K, V)> {
+        self.v.pop()
+    }
 }
 impl<'a, K, V> MapEntry<'a, K, V> {
     /// "Ensures a value is in the entry by inserting the default value if empty, and returns a mutable
